@@ -97,11 +97,12 @@ theorem C01_roundtrip_tree_partial (c : Cfg) (hs : c.env.flat = true) (L : Oracl
 
 /-- **Byte level (`_partial`)**: the same statement on the bytes `Codec.ProtoToJSON` returns and
 `Codec.JSONToProto` reads — through the string escaper / unquoter, the number scanner, the
-`Token()` state machine and the tree builder (`readDoc_render`). Same hypotheses, plus `ChunkLaws`:
+`Token()` state machine and the tree builder (`readDoc_render`). Same hypotheses, plus — for
+environments that have `Any` fields — `ChunkLaws`:
 what `O.chunk` recognises is compact JSON as the codec writes it (`PTree.Enc`); the `j5_json` of an
 `Any` is spliced into the output verbatim and read back as part of the document. -/
 theorem C01_roundtrip_bytes_partial (c : Cfg) (hs : c.env.flat = true) (L : OracleLaws c.O)
-    (hC : ChunkLaws c.O) (hA : c.protoToAny = false ∨ c.env.noAny = true)
+    (hC : c.env.noAny = true ∨ ChunkLaws c.O) (hA : c.protoToAny = false ∨ c.env.noAny = true)
     (root : String) (m : Fields) (bs : Bytes)
     (hok : valOk c.env c.O (.object root) (.msg m) = true ∨
       valOk c.env c.O (.oneof root) (.msg m) = true)
@@ -122,7 +123,7 @@ sub-messages; the Go-side oracle compares modulo them), and decimals that are
 not in `decimal.String()` normal form (they round-trip up to numeric equality:
 `C01_scalar_roundtrip`). -/
 theorem C01_roundtrip_partial (c : Cfg) (hs : c.env.flat = true) (L : OracleLaws c.O)
-    (hC : ChunkLaws c.O) (hA : c.protoToAny = false ∨ c.env.noAny = true)
+    (hC : c.env.noAny = true ∨ ChunkLaws c.O) (hA : c.protoToAny = false ∨ c.env.noAny = true)
     (root : String) (m : Fields)
     (hok : valOk c.env c.O (.object root) (.msg m) = true ∨
       valOk c.env c.O (.oneof root) (.msg m) = true) :
@@ -131,7 +132,7 @@ theorem C01_roundtrip_partial (c : Cfg) (hs : c.env.flat = true) (L : OracleLaws
 
 /-- encoding alone (first half of the statement) -/
 theorem C01_encode_succeeds_partial (c : Cfg) (hs : c.env.flat = true) (L : OracleLaws c.O)
-    (hC : ChunkLaws c.O) (root : String) (m : Fields)
+    (hC : c.env.noAny = true ∨ ChunkLaws c.O) (root : String) (m : Fields)
     (hok : valOk c.env c.O (.object root) (.msg m) = true ∨
       valOk c.env c.O (.oneof root) (.msg m) = true) :
     ∃ bs, encodeBytes c.env c.O root (.msg m) = .ok bs :=
@@ -280,7 +281,7 @@ codec itself (the case the property quantifies over) is covered by `C01_roundtri
 an oracle that recognises those bytes (`oracleLaws_withChunk`: the text-oracle laws are not
 affected), as long as the nesting depth stays ≤ 10000 (`maxNestingDepth` of `encoding/json`). -/
 theorem C01_own_output_is_chunk (c : Cfg) (hs : c.env.flat = true) (L : OracleLaws c.O)
-    (hC : ChunkLaws c.O) (root : String) (m : Fields)
+    (hC : c.env.noAny = true ∨ ChunkLaws c.O) (root : String) (m : Fields)
     (hok : valOk c.env c.O (.object root) (.msg m) = true ∨
       valOk c.env c.O (.oneof root) (.msg m) = true) :
     ∃ (bs : Bytes) (V : PTree), encodeBytes c.env c.O root (.msg m) = .ok bs ∧ V.Enc ∧ V.render = bs ∧
@@ -290,9 +291,11 @@ theorem C01_own_output_is_chunk (c : Cfg) (hs : c.env.flat = true) (L : OracleLa
     rcases hok with hok | hok
     · exact valOk_chunksOk _ _ _ _ hok
     · exact valOk_chunksOk _ _ _ _ hok
-  obtain ⟨t, ht, hb, _⟩ := encodeBytes_parses' c.env c.O hC (floatTextOk_of_laws c.O L) root
-    (.msg m) bs (Or.inr hch) hbs
-  have henc := encodeTree_enc' c.env c.O hC (floatTextOk_of_laws c.O L) root (.msg m) t (Or.inr hch) ht
+  have hg : c.env.noAny = true ∨ (ChunkLaws c.O ∧ (PVal.msg m).chunksOk c.O = true) :=
+    hC.elim Or.inl (fun h => Or.inr ⟨h, hch⟩)
+  obtain ⟨t, ht, hb, _⟩ := encodeBytes_parses' c.env c.O (floatTextOk_of_laws c.O L) root
+    (.msg m) bs hg hbs
+  have henc := encodeTree_enc' c.env c.O (floatTextOk_of_laws c.O L) root (.msg m) t hg ht
   exact ⟨bs, t, hbs, henc, hb.symm, enc_complete t henc⟩
 
 /-- the oracle laws are satisfiable -/
